@@ -66,7 +66,7 @@ pub fn lockstep(g: &Grammar, l: &Lock, via_file: Option<&std::path::Path>) -> V 
         return V::Viol("panic", p.clone());
     }
     // (an IF_DATA block, not the quoted tag inside an A2ML definition)
-    let has_ifdata = l.text.match_indices("IF_DATA").any(|(i, _)| i == 0 || l.text.as_bytes()[i - 1] != b'"');
+    let has_ifdata = l.text.match_indices("IF_DATA").any(|(i, _)| i == 0 || l.text.as_bytes()[i - 1] != b'"') && l.class != "end-tag-raw";
     let expect_file = via_file.map(|p| p.to_string_lossy().into_owned()).unwrap_or_default();
     let mut outcome = String::new();
     match (&strict, &lax) {
@@ -155,6 +155,25 @@ pub fn lockstep(g: &Grammar, l: &Lock, via_file: Option<&std::path::Path>) -> V 
                 for e in log {
                     if let Some(v) = check(e, "non-strict") {
                         return v;
+                    }
+                }
+            }
+        }
+    }
+    // input that ends in the middle of the document: the end-of-input diagnostic names the line of the last token
+    if l.class == "truncate" {
+        if let Ok(lexed) = vcore::reftok::lex(&l.text) {
+            if let Some(last) = lexed.tokens.last().map(|t| t.end_line) {
+                for (mode, r) in [("strict", &strict), ("non-strict", &lax)] {
+                    if let Loaded::Err(e) = r {
+                        if format!("{e:?}").contains("UnexpectedEOF") {
+                            if let Some((_, ln)) = file_line(e) {
+                                if ln != last {
+                                    return V::Viol("R5-line", format!("{mode}: the input ends at line {last}, the diagnostic names line {ln}: {e}"));
+                                }
+                                outcome.push_str(",eof-line-checked");
+                            }
+                        }
                     }
                 }
             }
@@ -531,6 +550,25 @@ pub fn build(g: &Grammar, thorough: bool) -> Vec<Lock> {
             let mut t = l.text.clone();
             t.insert_str(at, a2ml);
             out.push(Lock { text: t, label: format!("{} behind an A2ML block with multi-line comments", l.label), class: format!("{}+a2ml-block", l.class), fault_tok: None, r5: true, elem_lines: None });
+        }
+    }
+    // the two blocks whose content is not described by the grammar (A2ML, IF_DATA; hand-written parsers) closed by a wrong tag: at
+    // module level and inside an element, alone and next to each other (no A2ML definition for the IF_DATA, so nothing is tried)
+    {
+        let head = "ASAP2_VERSION 1 71\n/begin PROJECT p \"\"\n/begin MODULE m \"\"\n";
+        let tail = "/end MODULE\n/end PROJECT\n";
+        let meas = |inner: &str| format!("/begin MEASUREMENT x \"\" UBYTE NO_COMPU_METHOD 0 0 0 255\n{inner}/end MEASUREMENT\n");
+        for (n, body) in [
+            ("A2ML closed by another tag", "/begin A2ML\nblock \"IF_DATA\" struct { uint; };\n/end A2M\n".to_string()),
+            ("A2ML closed by the tag of its parent", "/begin A2ML\nstruct S { uint; };\n/end MODULE\n".to_string()),
+            ("IF_DATA closed by another tag", "/begin IF_DATA ZZ 1\n/end IF_DAT\n".to_string()),
+            ("IF_DATA with a nested block closed by another tag", "/begin IF_DATA ZZ /begin Q 1 /end Q\n/end ZZ\n".to_string()),
+            ("IF_DATA inside an element closed by another tag", meas("/begin IF_DATA ZZ 1\n/end IFDATA\n")),
+            ("IF_DATA inside an element closed by the tag of the element", meas("/begin IF_DATA ZZ 1\n/end MEASUREMENT\n")),
+        ] {
+            for extra in ["", "/begin MEASUREMENT y \"\" UBYTE NO_COMPU_METHOD 0 0 0 255\n/end MEASUREMENT\n"] {
+                out.push(Lock { text: format!("{head}{body}{extra}{tail}"), label: format!("{n}{}", if extra.is_empty() { "" } else { ", an element behind it" }), class: "end-tag-raw".into(), fault_tok: None, r5: false, elem_lines: None });
+            }
         }
     }
     // several A2ML blocks in one file: a valid one in the first module, damaged ones (five ways) in the second / third
